@@ -106,8 +106,8 @@ LEVEL_TEXT = ("Theorems (Coq, unbounded, on an abstract number type with only th
               "(S4: every value of a used object is compared bit for bit with a fresh object's — built by the same constructor overload with the same unit arguments — "
               "and with the prefactor of the history times the value of a new object: exactly for Interpolate / operator() / Derivative / Local_* / Global_* and "
               "the 2-D value, within the a-priori summation error for Integrate; a new object is anchored to the unit-scaled table at tabulated abscissae, by its "
-              "global extrema and by the public member domain). The spline evaluation formulas are parameters of the "
-              "model (C01/C08). Save_Function is RUN by the check (ops F / f: any point count 0, 1, 2, .., fewer / as many / more points than knots, the default argument of the 2-D overload, "
+              "global extrema and by the public member domain). The spline evaluation formulas were parameters of the "
+              "model up to the sixth pass (now C09_Model2.v: see the end of this text). Save_Function is RUN by the check (ops F / f: any point count 0, 1, 2, .., fewer / as many / more points than knots, the default argument of the 2-D overload, "
               "between Set_Prefactor / Multiply calls, on copies and in sessions): the harness reads the file back and S4 compares every row AS TEXT (six significant digits, what the library "
               "writes) with the k-th point of Linear_Space over the domain and with the prefactor of the history times the value of a new object at that point, and with a fresh object's value; the model predicts "
               "the row count, the points and the values (the text formatting itself is not modelled: a deviation below the sixth digit of a file entry is invisible in the file). "
@@ -117,11 +117,26 @@ LEVEL_TEXT = ("Theorems (Coq, unbounded, on an abstract number type with only th
               "any history and Integrate(b, a) after any history with the same prefactor calls (e.g. later on the same object) return 1 * v and (-1) * v for the SAME loop value v and the same "
               "located segments: no value obtained for one order of the limits is handed out for the other (whole-domain ranges included); C09_interpolate_2d_after_history — after any 2-D "
               "history Interpolate(x, y) is the prefactor of the history times the bilinear expression on THE cell of (x, y), never on a remembered cell. The loop value itself (the Steffen "
-              "antiderivatives) stays a parameter here (C01/C08) and the -1 * v = -(1 * v) step is IEEE arithmetic, not an order law: S4 checks it (Integrate in both orders against fresh objects). "
+              "antiderivatives) is a parameter in these three theorems (written out in C09_Model2.v since the seventh pass) and the -1 * v = -(1 * v) step is IEEE arithmetic, not an order law: S4 checks it (Integrate in both orders against fresh objects). "
               "The generator asks, inside histories, one range repeatedly in both orders of its limits (whole domain with limits bit-equal to the domain ends, knot to knot, tolerated zone) and, for "
               "tables built with unit arguments, makes the FIRST query of a fresh object (or of a copy of a never-used object) bit-equal to an entry of the RAW constructor argument (class raw-argument). "
               "NaN arguments: Locate tests std::isnan first and exits; C09_nan_argument_exits proves Exit in every state, and the history theorems "
-              "hold for NaN arguments as well (both objects exit).")
+              "hold for NaN arguments as well (both objects exit). "
+              "Seventh pass — the 1-D VALUE computations are inside the C09 model now (coq/C09_Model2.v, line by line after the bodies of Interpolate, Derivative, Integrate, "
+              "Local_Minimum / Local_Maximum, Global_Minimum / Global_Maximum: seg_value, deriv_value, stem / integ_loop, ext_scan, glob_value over the tables x_values, function_values and the "
+              "coefficient vectors a, b, c, d; step_full is the extracted term the correspondence run compares with the library, indices and values, bit for bit; how a, b, c, d are computed "
+              "stays C01's subject, the driver takes them from C01_Model.build). New theorems, from the order laws alone (valid for doubles with rounding), unbounded over histories and loop lengths: "
+              "C09_full_model_history_free (the history theorem for step_full); C09_values_no_out_of_bounds (for every index Locate can return no value computation reads outside a vector: "
+              "the Integrate loop over any number of segments, the knot scan that reads x_values[i_2+1], the global scans); C09_local_minimum_scan / C09_local_maximum_scan (the knot loop returns "
+              "the least / greatest of its candidates f_left, f_right, prefactor * function_values[k] over the tabulated abscissae i_1 <= k <= i_2+1 inside [x_1, x_2], and one of them); "
+              "C09_local_extremum_after_history (for every choice of the value computations: after any history Local_* locates THE segments of x_1 and x_2, twice each, and scans from "
+              "prefactor * S(x_1), prefactor * S(x_2) with the prefactor of the Set_Prefactor / Multiply calls alone); C09_full_interpolate_after_history (the value is that prefactor times "
+              "a[j] dx^3 + b[j] dx^2 + c[j] dx + d[j] on THE segment, down to the table entries); C09_full_integrate_after_history; C09_full_local_minimum_after_history / _maximum_ (the result "
+              "after any history is the least / greatest candidate, candidates written out); C09_full_global_extrema_after_history (min / max of prefactor * f_min, prefactor * f_max with f_min / f_max "
+              "the least / greatest entry of function_values). Over the reals only: C09_integrate_linear_in_prefactor_real (the Integrate loop with prefactor p is p times the loop with prefactor 1; "
+              "in doubles up to the rounding of the loop, which S4 bounds a priori). Still not theorems: that the prefactor scales Local_* / Global_* / Integrate EXACTLY in doubles (it does not: "
+              "the candidates are products rounded one by one; S4 compares with a fresh object bit for bit and with prefactor * new-object value), the Steffen coefficient computation (C01), "
+              "and the text formatting of Save_Function files. coverage/C09.md lists function by function what is modelled line by line and what by specification.")
 LEVEL_NOTE = ("Coq 8.16.1 kernel; all C09 theorems are axiom-free (closed under the global context); premises carried by the theorems: OrdLaws (strict total "
               "order on non-NaN values; nisnan models std::isnan), table strictly increasing (checked by the constructor on the unit-converted abscissae; discharged for constructed objects by "
               "C09_constructor_table_increasing / C09_constructed_history_free since the repair F45 of K-C09-2), for the constructed 2-D objects the default unit argument -1.0 is not > 0.0, "
@@ -132,7 +147,8 @@ LEVEL_NOTE = ("Coq 8.16.1 kernel; all C09 theorems are axiom-free (closed under 
 TOL = (1e-12, 1e-300)
 MODEL_DEPS = ["C01_Model.v", "C08_Model.v", "C01_Model.vo", "C08_Model.vo"]
 TRUSTED = ["the compiler-generated copy constructor, copy / move assignment, std::swap and destructor of Interpolation / Interpolation_2D are modelled as member-wise operations on objects that share no storage",
-           "the 1-D spline evaluation functions are parameters of the C09 model; 1-D values are checked on the implementation only (bit-identity with a fresh object), not against the model"]
+           "the Steffen coefficient vectors a, b, c, d are inputs of the C09 model (computed by C01_Model.build in the driver; Compute_Steffen_Coefficients is C01's subject); the value computations on them are C09_Model2.v and are compared with the library on every run",
+           "std::min_element / std::max_element / std::min / std::max / std::sort / std::unique, Check_For_Error and the int / unsigned conversions are modelled by specification (coverage/C09.md)"]
 ASSUMPTIONS = ["OrdLaws: the comparison of non-NaN doubles is a strict total order; NaN arguments are handled separately (nisnan: Locate exits)",
                "signed overflow in the index arithmetic is excluded by N <= 2^30 (tables of the property have 3..2000 points)"]
 
